@@ -379,6 +379,8 @@ def vary_names(decls, every=3, upper=True, raw=True):
         # the options of #[bitfield(base, ...)] in either order, with and without a trailing comma
         d.setdefault("args_rev", k % 2 == 1)
         d.setdefault("args_trailing", k % 4 >= 2)
+        # every fourth declaration is produced by a macro_rules! expansion (rustgen.macro_wrapped; trace legs only)
+        d.setdefault("wrap", "macro" if k % 4 == 1 else "")
         if k % every != 0:
             continue
         used = set()
